@@ -20,6 +20,8 @@ def run(ctx):
         hc = orderlib.harness_topn_cases(ctx, n_h)
     except Exception as e:
         ctx.notes.append("harness: fallback-binary-only (%s)" % str(e)[:200])
+        ctx.violation("correspondence-mismatch", "the real functions could not be reached through the harness (#[path] inclusion of /repo/src): %s" % str(e)[:300], input={}, concrete=False,
+                      correspondence="harness build / run")
         hc = []
     for c in hc:
         st["evaluations"] += 1
